@@ -43,7 +43,8 @@ class Prop(BaseProp):
         if not gen.render_distinct(tree) and not known:
             return Verdict('skip', case)
         lic = impl.le.Licensing()
-        e = impl.build_tree(tree, lic.AND, lic.OR)
+        import random as _random
+        e = impl.build_tree(tree, lic.AND, lic.OR, rng=_random.Random(len(repr(tree))) if len(repr(tree)) % 3 == 0 else None)
         before = impl.tree_c(e)
         try:
             d = lic.dedup(e)
